@@ -40,6 +40,7 @@ type knownFinding struct {
 	Status    string            `json:"status"` // known | fixed
 	Harness   string            `json:"harness"`
 	Label     string            `json:"label"`
+	LabelPrefix string          `json:"label_prefix,omitempty"`
 	VectorHas map[string]uint64 `json:"vector_has,omitempty"`
 	Commit    string            `json:"commit,omitempty"`
 	Text      string            `json:"text"`
@@ -138,7 +139,14 @@ func loadKnown(verif string) []knownFinding {
 func matchKnown(known []knownFinding, prop string, v vexec.Violation) *knownFinding {
 	for i := range known {
 		k := &known[i]
-		if k.Status != "known" || k.Harness != v.Harness || k.Label != v.Label {
+		if k.Status != "known" || k.Harness != v.Harness {
+			continue
+		}
+		if k.LabelPrefix != "" {
+			if !strings.HasPrefix(v.Label, k.LabelPrefix) {
+				continue
+			}
+		} else if k.Label != v.Label {
 			continue
 		}
 		ok := true
@@ -215,6 +223,7 @@ func runCheck(opt vexec.Options, prop string, seed int64, verif string) int {
 	inconclusive := []string{}
 	violations := 0
 	knownHits := 0
+	knownPrinted := map[string]bool{}
 	var results []*vexec.HarnessResult
 	funcs := map[string]int64{}
 	stubs := map[string]int{}
@@ -358,7 +367,8 @@ func runCheck(opt vexec.Options, prop string, seed int64, verif string) int {
 				continue
 			}
 			if k := matchKnown(known, prop, v); k != nil {
-				if knownHits == 0 || true {
+				if !knownPrinted[k.Text] {
+					knownPrinted[k.Text] = true
 					fmt.Printf("KNOWN-FINDING: property=%s %s\n", prop, k.Text)
 				}
 				knownHits++
